@@ -53,6 +53,16 @@ using ll3 = ll::link_layer< gatt_server, stack::sim_radio,
     ll::variable_advertising_channel_map,
     ll::advertising_interval< 1000 > >;
 
+// several advertising types, switched at run time
+using ll4 = ll::link_layer< gatt_server, stack::sim_radio,
+    ll::connection_callbacks< stack::callback_recorder, recorder >,
+    ll::connectable_undirected_advertising,
+    ll::connectable_directed_advertising,
+    ll::scannable_undirected_advertising,
+    ll::non_connectable_undirected_advertising,
+    ll::white_list< 2 >,
+    ll::advertising_interval< 50 > >;
+
 bluetoe::link_layer::device_address device( std::int64_t who )
 {
     const std::uint8_t a[ 6 ] = { static_cast< std::uint8_t >( 0xa0 | who ), 0x11, 0x22, 0x33, 0x44, 0xc5 };
@@ -84,7 +94,20 @@ template < class LL > bool app_start_stop( LL& l, std::int64_t what, std::int64_
 }
 template < class LL > bool app_start_stop( LL&, std::int64_t, std::int64_t, std::false_type ) { return false; }
 
-template < class LL, bool WhiteList, bool VarMap, bool NoAutoStart >
+template < class LL > bool app_change_adv( LL& l, std::int64_t type, std::int64_t who, std::true_type )
+{
+    switch ( ( ( type % 4 ) + 4 ) % 4 )
+    {
+    case 0: l.template change_advertising< ll::connectable_undirected_advertising >(); break;
+    case 1: l.directed_advertising_address( device( who ) ); l.template change_advertising< ll::connectable_directed_advertising >(); break;   // without a target nothing would be advertised any more
+    case 2: l.template change_advertising< ll::scannable_undirected_advertising >(); break;
+    default: l.template change_advertising< ll::non_connectable_undirected_advertising >(); break;
+    }
+    return true;
+}
+template < class LL > bool app_change_adv( LL&, std::int64_t, std::int64_t, std::false_type ) { return false; }
+
+template < class LL, bool WhiteList, bool VarMap, bool NoAutoStart, bool MultiAdv = false >
 void run_config( const sim::Plan& plan, sim::Result& res, unsigned latency_features, unsigned sca, unsigned adv_interval, unsigned wl_size, unsigned rx, unsigned tx )
 {
     recorder = stack::callback_recorder();
@@ -111,6 +134,7 @@ void run_config( const sim::Plan& plan, sim::Result& res, unsigned latency_featu
         case 6: return app_white_list( *link, a, b, std::integral_constant< bool, WhiteList >() );
         case 7: return app_adv_map( *link, a, b, std::integral_constant< bool, VarMap >() );
         case 8: return app_start_stop( *link, a, b, std::integral_constant< bool, NoAutoStart >() );
+        case 9: return app_change_adv( *link, a, b, std::integral_constant< bool, MultiAdv >() );
         }
         return false;
     };
@@ -131,7 +155,7 @@ struct stack_harness : sim::Harness
     std::vector< std::string > properties() const override { return { "C20", "C21", "C22", "C23", "C24", "C25", "C27", "C29" }; }
     std::string nontrivial_rule( const std::string& ) const override
     {
-        return "seeded plans against the whole peripheral (4 link layer configurations): scanners and initiators with well formed and malformed requests, a reference central with drifting clock "
+        return "seeded plans against the whole peripheral (5 link layer configurations): scanners and initiators with well formed and malformed requests, a reference central with drifting clock "
                "(CSA#1, anchors, ARQ, MD bursts, LL control PDUs of every opcode and length, connection/channel-map/PHY updates with legal and illegal instants), application calls between events "
                "(notify/indicate with event cancellation, disconnect, peripheral initiated procedures, white list, advertising map/start/stop), air faults attached to connection events "
                "(loss or CRC error towards the peripheral, loss towards the central, silent central); non-trivial = >=3 advertising PDUs and >=5 connection events (advertising properties: >=3 PDUs); distinct = distinct trace hashes";
@@ -150,8 +174,8 @@ struct stack_harness : sim::Harness
         sim::Rng rng( seed );
         sim::Plan p;
         p.harness = name(); p.property = property; p.seed = seed;
-        p.config = static_cast< int >( rng.below( 4 ) );
-        static const int own_sca[ 4 ] = { 500, 100, 20, 500 };
+        p.config = static_cast< int >( rng.below( 5 ) );
+        static const int own_sca[ 5 ] = { 500, 100, 20, 500, 500 };
         // the peripheral's clock error: inside its declared accuracy, extremes likely
         const int sel = static_cast< int >( rng.below( 5 ) );
         p.knobs[ "p_drift_ppm" ] = sel == 0 ? own_sca[ p.config ] : sel == 1 ? -own_sca[ p.config ] : sel == 2 ? 0 : rng.range( -own_sca[ p.config ], own_sca[ p.config ] );
@@ -207,8 +231,9 @@ struct stack_harness : sim::Harness
             }
             else if ( x < 97 )
             {
-                std::int64_t kind = rng.range( 0, 8 );
-                if ( adv_focus && rng.chance( 60 ) ) kind = rng.range( 6, 8 );
+                std::int64_t kind = rng.range( 0, 9 );
+                if ( adv_focus && rng.chance( 60 ) ) kind = rng.range( 6, 9 );
+                if ( p.config == 4 && rng.chance( 35 ) ) kind = 9;
                 p.ops.push_back( sim::Op( stack::op_app, { kind, rng.range( 0, 11 ), rng.range( 0, 9 ), rng.chance( 50 ) ? rng.range( 0, 2000 ) : rng.range( 0, 400000 ) } ) );
             }
             else if ( x < 99 ) p.ops.push_back( sim::Op( stack::op_central_terminate, {} ) );
@@ -222,7 +247,7 @@ struct stack_harness : sim::Harness
 
     void execute( const sim::Plan& plan, sim::Result& res ) const override
     {
-        const int c = ( ( plan.config % 4 ) + 4 ) % 4;
+        const int c = ( ( plan.config % 5 ) + 5 ) % 5;
         res.note( "config %d", c );
         switch ( c )
         {
@@ -231,6 +256,7 @@ struct stack_harness : sim::Harness
         case 1: run_config< ll1, true, true, false >( plan, res, 32, 100, 30, 3, 100, 100 ); break;
         case 2: run_config< ll2, false, false, true >( plan, res, 1 | 16, 20, 20, 0, 61, 61 ); break;
         case 3: run_config< ll3, false, true, false >( plan, res, 4 | 2, 500, 1000, 0, 200, 61 ); break;
+        case 4: run_config< ll4, true, false, false, true >( plan, res, 1 | 2 | 4 | 8 | 16, 500, 50, 2, 61, 61 ); break;
         }
     }
 
